@@ -539,7 +539,9 @@ func (l *IPFSLog) Join(otherLog iface.IPFSLog, size int) (iface.IPFSLog, error) 
 	// then its entries. A log only grows, so everything reachable from these heads is among
 	// the entries read afterwards. Calling the other log's accessors (which take its lock)
 	// while holding our own lock would let two logs joining each other deadlock.
+	verifhook.Yield("join.before-heads", l)
 	otherHeads := otherLog.RawHeads()
+	verifhook.Yield("join.before-entries", l)
 	otherEntries := otherLog.GetEntries()
 
 	l.lock.Lock()
@@ -598,7 +600,6 @@ func (l *IPFSLog) Join(otherLog iface.IPFSLog, size int) (iface.IPFSLog, error) 
 		}
 	}
 
-	verifhook.Yield("join.before-heads", l)
 	mergedHeads := entry.FindHeads(l.heads.Merge(otherHeads))
 
 	for idx, e := range mergedHeads {
